@@ -437,6 +437,12 @@ fn start_watchdog() {
     });
 }
 
+/// Violations a shard has established so far (read by the parent if the
+/// shard dies later on).
+fn partial_path(cur_file: &Path) -> PathBuf {
+    PathBuf::from(format!("{}.partial", cur_file.display()))
+}
+
 fn write_current(file: &std::fs::File, part: usize, kind: u8, payload: &[u8]) {
     CASE_STARTED_MS.store(elapsed_ms(), std::sync::atomic::Ordering::SeqCst);
     // layout: [kind u8][part u8][len u32 le][payload]; a single pwrite at 0
@@ -450,6 +456,7 @@ fn write_current(file: &std::fs::File, part: usize, kind: u8, payload: &[u8]) {
 
 pub fn run_shard(ctx: &ShardCtx) -> ShardReport {
     install_panic_hook();
+    let _ = std::fs::remove_file(partial_path(&ctx.cur_file));
     let cur = std::fs::OpenOptions::new()
         .create(true)
         .write(true)
@@ -572,6 +579,11 @@ pub fn run_shard(ctx: &ShardCtx) -> ShardReport {
                         failed.set(true);
                         *first_sig.borrow_mut() = f.signature.clone();
                         *last_fail.borrow_mut() = Some((tape.clone(), f.clone()));
+                        // should the shard die while shrinking (a smaller case
+                        // may hang or crash), the parent still reports this
+                        // failure, unshrunk
+                        let marker = json!({"signature": f.signature, "detail": f.detail, "tape": tape});
+                        write_current(&cur, pi, b'F', marker.to_string().as_bytes());
                         Err(TestCaseError::fail(f.signature.clone()))
                     }
                 }
@@ -596,6 +608,7 @@ pub fn run_shard(ctx: &ShardCtx) -> ShardReport {
                             "origin": "generated+shrunk",
                             "replay_tries": if deterministic { 1 } else { 50 },
                         }));
+                        let _ = std::fs::write(partial_path(&ctx.cur_file), serde_json::to_string(&st.report.violations).unwrap_or_default());
                     }
                 }
                 Err(TestError::Abort(reason)) => {
@@ -731,6 +744,7 @@ pub fn run_parent(def: &PropertyDef, tier: Tier, seed: u64, exe: &Path) -> RunRe
         let cur = tmp.join(format!("{}-{}-{}.cur", def.id, tier.name(), shard));
         let _ = std::fs::remove_file(&report);
         let _ = std::fs::remove_file(&cur);
+        let _ = std::fs::remove_file(partial_path(&cur));
         let mut cmd = std::process::Command::new(exe);
         cmd.arg("--shard")
             .arg(def.id)
@@ -802,6 +816,19 @@ pub fn run_parent(def: &PropertyDef, tier: Tier, seed: u64, exe: &Path) -> RunRe
                         violations.extend(r.violations);
                     }
                     None => inconclusive.push(format!("shard {shard}: no report")),
+                }
+            }
+            Some(st) if !st.success() && (recover_failure(def, &cur).is_some() || partial_path(&cur).exists()) => {
+                // the shard died, but not before it had established violations
+                if let Ok(txt) = std::fs::read_to_string(partial_path(&cur)) {
+                    if let Ok(vs) = serde_json::from_str::<Vec<Value>>(&txt) {
+                        violations.extend(vs);
+                    }
+                }
+                if let Some(v) = recover_failure(def, &cur) {
+                    violations.push(v);
+                } else {
+                    inconclusive.push(format!("shard {shard}: died ({:?}) after reporting violations", st.code()));
                 }
             }
             Some(st) if st.code() == Some(EXIT_CASE_TIMEOUT) => {
@@ -961,6 +988,23 @@ fn recover_current(def: &PropertyDef, cur: &Path) -> Option<(String, Value, Valu
         }
         _ => None,
     }
+}
+
+/// A failure that was observed before the shard died (while shrinking it).
+fn recover_failure(def: &PropertyDef, cur: &Path) -> Option<Value> {
+    let b = std::fs::read(cur).ok()?;
+    if b.len() < 6 || b[0] != b'F' {
+        return None;
+    }
+    let part = def.parts.get(b[1] as usize)?;
+    let len = u32::from_le_bytes([b[2], b[3], b[4], b[5]]) as usize;
+    let m: Value = serde_json::from_slice(b.get(6..6 + len)?).ok()?;
+    let tape: Vec<u32> = serde_json::from_value(m["tape"].clone()).ok()?;
+    Some(json!({
+        "property": def.id, "part": part.name(), "signature": m["signature"], "detail": m["detail"],
+        "case": part.decode(&tape), "tape": tape, "origin": "generated (the shard died while shrinking)",
+        "replay_tries": 50,
+    }))
 }
 
 /// Entry point of a shard child process.
